@@ -116,7 +116,11 @@ def binding_selftest(c, binp):
         r = c.tlc(SD, "Trace_Reassembly", mode="trace", env={"TRACE": pth}, timeout=600, expect_violation=True)
         accepted = r.ok and not r.postcondition_failed and not r.violated
         if name == "orig" and not accepted:
-            c.fail_tool("binding self-test: unmodified trace rejected")
+            # the code does not follow the I-spec on this trace: that is conformance drift (or a violation found
+            # by the steps below), not a tool problem; the self-test needs a conforming trace, so skip it
+            c.drift("binding self-test skipped: the recorded self-test trace is not accepted by Trace_Reassembly (%s)" % ",".join(r.violated or ["postcondition"]))
+            c.cov["binding_selftest"] = "skipped (trace of the current code rejected)"
+            return
         if name != "orig" and accepted:
             c.fail_tool("binding self-test: trace variant '%s' was accepted - the trace spec does not constrain the code" % name)
     c.cov["binding_selftest"] = "orig accepted; corrupt-field and drop-event rejected"
